@@ -237,6 +237,10 @@ def collect_exprs(obj, acc, depth=0):
 # ---------------------------------------------------------------------------------------------
 
 
+AST_VERBS = {"select", "drop", "rename", "mutate", "filter", "arrange", "group_by", "ungroup", "summarize", "slice_head", "join", "inner_join",
+             "left_join", "full_join", "cross_join", "alias", "collect", "_union_verb"}
+
+
 class _San:
     def __init__(self):
         self.installed = False
@@ -246,6 +250,36 @@ class _San:
         self.stack = []
         self.verbs_seen = Counter()
         self.suspend = 0
+        self.check_exports = False
+        self.last_monitor_error = None
+
+    def check_export(self, tbl, res):
+        """I8 / I9 on every Polars export that goes through the pipe (used when the repository's own test-suites
+        run under the monitors; the generated workloads check the same at their probes)."""
+        try:
+            import polars as pl
+        except Exception:
+            return
+        if isinstance(res, pl.LazyFrame):
+            return
+        if not isinstance(res, pl.DataFrame):
+            return
+        from . import runner
+
+        self.suspend += 1
+        try:
+            self.counts["I8"] += 1
+            for p in runner.metadata_problem(tbl, res):
+                self.report("I8", "export", p)
+            self.counts["I9"] += 1
+            be = "pol" if tbl._cache.backend.backend_name.endswith("polars") else "sql"
+            for p in runner.static_type_problem(tbl, res, be):
+                self.report("I9", "export", p)
+        except Exception as e:  # the monitor must never disturb the code under test
+            self.counts["monitor_errors"] += 1
+            self.last_monitor_error = f"{type(e).__name__}: {e}"
+        finally:
+            self.suspend -= 1
 
     def report(self, inv, verb, detail):
         self.violations.append({"inv": inv, "verb": verb, "detail": detail})
@@ -302,6 +336,8 @@ class _San:
             san._post_unchanged(vname, arg, pre_t, tables, pre_others, pre_e, exprs, raised=False)
             if isinstance(res, Table):
                 san.check_table(res, vname, old=arg)
+            elif san.check_exports and names == ["export"]:
+                san.check_export(arg, res)
             return res
 
         pipeable.Pipeable.__call__ = __call__
@@ -366,7 +402,8 @@ class _San:
             if (rc.limit, rc.group_by, rc.is_filtered) != (c.limit, c.group_by, c.is_filtered):
                 self.report("I3", vname, f"subquery state incremental {(c.limit, c.group_by, c.is_filtered)} != "
                             f"recomputed {(rc.limit, rc.group_by, rc.is_filtered)}")
-        if old is not None:
+        if old is not None and vname.split("+")[-1] in AST_VERBS:
+            # (custom verbs and show(pipe=True) / show_query(pipe=True) may legitimately return their input)
             self.counts["I7"] += 1
             if t is old:
                 self.report("I7", vname, "verb returned its input object")
